@@ -121,6 +121,13 @@ func (w *writer) node(n Node, depth int) {
 		if n.Name != "" {
 			fmt.Fprintf(w.b, ` name="%s"`, n.Name)
 		}
+		if n.For != nil {
+			if n.For.Idx != "" {
+				fmt.Fprintf(w.b, ` v-for="(%s, %s) in %s"`, n.For.Idx, n.For.Item, n.For.List)
+			} else {
+				fmt.Fprintf(w.b, ` v-for="%s in %s"`, n.For.Item, n.For.List)
+			}
+		}
 		for _, kv := range n.Bind {
 			fmt.Fprintf(w.b, ` :%s="%s"`, kv.K, kv.V)
 		}
